@@ -73,7 +73,36 @@ def _job(idx: int) -> List[Dict[str, Any]]:
         s0 = ("in", "IN.player", "sigma", tgt.idx)
         tj = tgt.idx[1][1] if tgt.idx[1][0] == "v" else None
         problems = []
-        for mono, coef in D.items():
+        # the normal form multiplies the inflated variance (sigma^2 + tau^2) out: step = sigma^2 * R + tau^2 * R. The monomials
+        # without the player's own sigma must be exactly (a square of one parameter atom) x R, R being the sigma-part with sigma^2 removed.
+        def _own(a):
+            return _mentions(a, "IN.player") and _mentions(a, "sigma") and (tj is None or _mentions(a, tj)) and not _fold_atom(a)
+
+        with_own = {mono: coef for mono, coef in D.items() if any(_own(a) for a, _ in mono)}
+        without = {mono: coef for mono, coef in D.items() if mono not in with_own}
+        absorbed = False
+        if with_own and without:
+            R = {}
+            okR = True
+            for mono, coef in with_own.items():
+                own_part = [(a, e) for a, e in mono if _own(a)]
+                if len(own_part) != 1 or own_part[0][1] != 2:
+                    okR = False
+                    break
+                R[tuple((a, e) for a, e in mono if not _own(a))] = coef
+            if okR:
+                cands = None
+                for mono in without:
+                    sq_atoms = {a for a, e in mono if e == 2 and isinstance(a, tuple) and a and a[0] == "param"}
+                    cands = sq_atoms if cands is None else cands & sq_atoms
+                for t in sorted(cands or (), key=repr):
+                    E = {}
+                    for mono, coef in without.items():
+                        E[tuple((a, e) for a, e in mono if not (a == t and e == 2))] = coef
+                    if E == R:
+                        absorbed = True
+                        break
+        for mono, coef in (with_own if absorbed else D).items():
             own = [(a, e) for a, e in mono if isinstance(a, tuple) and a and a[0] == "sum" and _mentions(a, "sigma") and any(_mentions(a, str(x)) for x in [s0])]
             # the own (inflated) variance: an atom built from this player's prior sigma (and tau), total exponent 1
             own_atoms = [(a, e) for a, e in mono if _mentions(a, "IN.player") and _mentions(a, "sigma") and (tj is None or _mentions(a, tj)) and not _fold_atom(a)]
